@@ -82,7 +82,10 @@ func (o Op) String() string {
 	case OpRollback:
 		return "Rollback"
 	case OpReopen:
-		return fmt.Sprintf("Reopen(cache=%d,fast=%v,flush=%d)", o.Cache, o.Fast, o.Flush)
+		if o.Ver > 0 {
+			return fmt.Sprintf("Reopen(cache=%d,fast=%v,flush=%d)+LoadVersion(%d)", o.Cache, o.Fast, o.Flush, o.Ver)
+		}
+		return fmt.Sprintf("Reopen(cache=%d,fast=%v,flush=%d)+Load", o.Cache, o.Fast, o.Flush)
 	case OpLoadVersion:
 		return fmt.Sprintf("LoadVersion(%d)", o.Ver)
 	case OpDelTo:
@@ -141,6 +144,8 @@ type World struct {
 	NMaint int
 	NReads int
 	Strict bool
+	LastOp Op
+	LastOK bool // the last operation was expected to succeed (model)
 }
 
 func newStore(backend string) (corestore.KVStoreWithBatch, corestore.KVStoreWithBatch, *vstore.Store, string) {
@@ -266,6 +271,7 @@ func (w *World) Apply(op Op) *Violation {
 	if op.Kind == OpRead {
 		w.NReads++
 	}
+	w.LastOp = op
 	v := safely(op.String(), func() *Violation { return w.apply(op) })
 	if v != nil && v.Oracle == "panic" {
 		w.Dead = true
